@@ -85,7 +85,6 @@ type zzpAssumeViolation struct{}
 
 var zzpVec map[string]uint64
 var zzpCount = map[string]int{}
-var zzpFailed []string
 var zzpReached []string
 
 func zzpNext(tag string) (string, uint64) {
@@ -126,7 +125,8 @@ func zzAssume(c bool) {
 }
 func zzAssert(tag string, c bool) {
 	if !c {
-		zzpFailed = append(zzpFailed, tag)
+		// printed at once: a later crash of a worker goroutine cannot be recovered by the test
+		fmt.Println("ZZ-FAILED " + tag)
 	}
 }
 func zzReach(tag string)                 { zzpReached = append(zzpReached, tag) }
@@ -210,7 +210,7 @@ func zzDeepEqual(tag string, a, b interface{}, exclude string) {
 		}
 	}
 	if !zzpDeepEq(reflect.ValueOf(a), reflect.ValueOf(b), excl) {
-		zzpFailed = append(zzpFailed, tag)
+		fmt.Println("ZZ-FAILED " + tag)
 	}
 }
 
@@ -324,9 +324,6 @@ func TestZZReplay(t *testing.T) {
 		}()
 		zzDispatch(rf.Func, rf.Args)
 	}()
-	for _, f := range zzpFailed {
-		fmt.Println("ZZ-FAILED " + f)
-	}
 	for _, f := range zzpReached {
 		fmt.Println("ZZ-REACHED " + f)
 	}
@@ -413,6 +410,11 @@ func RunReplay(path string) (*ReplayResult, error) {
 		case line == "ZZ-DONE":
 			res.Done = true
 		}
+	}
+	if !res.Done && len(res.Failed) > 0 {
+		// the process died (a panic in a worker goroutine) after an assertion had already failed
+		res.Panic = "process crashed after the failed assertion"
+		return res, nil
 	}
 	if !res.Done {
 		return res, fmt.Errorf("replay did not complete:\n%s", tail(string(out), 30))
